@@ -577,9 +577,30 @@ mod sync_impl {
             }
             // sequential reference on the same engine (single thread; a re-entrant lock on any
             // query path would hang right here and be reported by the driver's replay)
+            // The sequential reference comes from a twin built from the same material, so that the
+            // shared engine is still cold (never queried, lazily built state not yet built) when
+            // the threads arrive; every other batch it is warmed first, as a long-lived engine is.
+            let warm = idx % 2 == 1;
+            if !warm && !miri && idx % 4 == 0 {
+                // a cold engine with thousands of buckets: whatever is built lazily on first use
+                // takes long enough to build for the other threads to arrive meanwhile
+                for i in 0..6000 {
+                    rules.push(format!("/zzt{}x/ad^", i));
+                }
+                for i in [0usize, 1, 2999, 5999, 6001] {
+                    qs.push(Q::Net(format!("https://x.com/zzt{}x/ad/1.js", i), "https://o.org/".into(), "script"));
+                }
+                ctx.obs("cold_large_batches", 1);
+            }
             let built = guarded(|| {
+                let twin = build(&rules, optimize, policy);
+                let expected: Vec<String> = qs.iter().map(|q| answer(&twin, q)).collect();
                 let e = build(&rules, optimize, policy);
-                let expected: Vec<String> = qs.iter().map(|q| answer(&e, q)).collect();
+                if warm {
+                    for q in qs.iter() {
+                        let _ = answer(&e, q);
+                    }
+                }
                 (e, expected)
             });
             let (e, expected) = match built {
@@ -605,6 +626,8 @@ mod sync_impl {
             let admin = !miri && idx % 3 == 1;
             let done = std::sync::atomic::AtomicBool::new(false);
             let admin_ops = AtomicU64::new(0);
+            // all query threads start their first query together
+            let barrier = std::sync::Barrier::new(nthreads);
             std::thread::scope(|s| {
                 if admin {
                     let e = &e;
@@ -640,7 +663,9 @@ mod sync_impl {
                     let tx = tx.clone();
                     let e = &e;
                     let qs = &qs;
+                    let barrier = &barrier;
                     s.spawn(move || {
+                        barrier.wait();
                         let r = guarded(|| {
                             let mut out = Vec::with_capacity(qs.len() * reps);
                             let off = t * qs.len() / nthreads;
